@@ -107,8 +107,10 @@ def prune_cache(keep):
     except FileNotFoundError:
         return
     ents.sort(key=lambda e: os.path.getmtime(os.path.join(CACHE, e)), reverse=True)
+    now = time.time()
     for e in ents[3:]:
-        if e != keep:
+        # never prune an entry another (concurrent) check may still be using
+        if e != keep and now - os.path.getmtime(os.path.join(CACHE, e)) > 1800:
             shutil.rmtree(os.path.join(CACHE, e), ignore_errors=True)
 
 
